@@ -2142,7 +2142,10 @@ class Exec:
                 st.env[nm] = fac(self, st, None)
                 mod_names = mod_names | {nm}
         # ghost state the contract's method models update (e.g. a map object id -> content): written by calls, invisible to the syntactic scan
-        mod_names = mod_names | {g for g in getattr(self.k, "ghost_state", ()) if g in st.env}
+        gs_ = getattr(self.k, "ghost_state", ())
+        if callable(gs_):                 # the ghost state this loop can write may depend on where the loop is entered (which of several recorders is current)
+            gs_ = gs_(self, st, n)
+        mod_names = mod_names | {g for g in gs_ if g in st.env}
         # --- initialisation
         st0 = st.fork()
         st0.env[kname] = z3.IntVal(0)
